@@ -129,8 +129,8 @@ def _m_proj_dedup(pid, v, context):
         ex, nw = context.get("existing"), context.get("new")
         return v.get("kind") == "rows" and ex is not None and ex[0] == "dedup" and nw[0] == "proj"
     if pid == "C03":
-        fn = context.get("counterfactual") if isinstance(context, dict) else None
-        return bool(fn and fn("projection_past_deduplication"))
+        fn = context.get("counterfactual") if isinstance(context, dict) else getattr(context, "counterfactual", None)
+        return v.get("kind") in ("rows", "rows-vs-plain") and bool(fn and fn("projection_past_deduplication"))
     return False
 
 
@@ -281,3 +281,27 @@ def _m_proc_order_loss(pid, v, context):
     if "RelationalAlgebraError" not in v.get("detail", "") or "will not preserve row order" not in v.get("detail", ""):
         return False
     return buried_sorted_union_with_empty_branch(rel)
+
+
+def distinct_under_hidden_sort_key(rel) -> bool:
+    """Some SQL Select with DISTINCT and an ORDER BY that uses a column the select does not expose
+    (SELECT DISTINCT a, b ... ORDER BY c): the row order of such a statement is not defined."""
+    from lsst.daf.relation import sql
+
+    from . import walk
+
+    for n in walk.walk(rel):
+        if isinstance(n, sql.Select) and n.has_deduplication and n.has_sort:
+            if not n.sort.columns_required <= n.columns:
+                return True
+    return False
+
+
+@matcher("backtracked_dedup_under_hidden_sort_key")
+def _m_dedup_hidden_sort(pid, v, context):
+    rel = _rel_of(context)
+    if rel is None or v.get("kind") not in ("rows", "rows-vs-plain") or not v.get("order_only"):
+        return False
+    parent = getattr(context, "parent_rel", None)
+    # cause: the call created the DISTINCT-under-hidden-sort-key statement (it was not there before)
+    return distinct_under_hidden_sort_key(rel) and (parent is None or not distinct_under_hidden_sort_key(parent))
